@@ -76,7 +76,7 @@ def errS (e : Errno) : String := e.name
 
 /-- applies the scratch-root guard before a path operation -/
 def rootGuard (k : K) (comps : List String) (f : Unit → K × String) : K × String :=
-  if escapes k.cwd.length comps then (k, "ESCAPE") else f ()
+  if comps.head? = some "" ∨ escapes k.cwd.length comps then (k, "ESCAPE") else f ()
 
 def runOp (k : K) (t : String) : K × String :=
   match words t with
